@@ -166,7 +166,9 @@ theorem without_sub (D : List Nat) (f : Nat) : ∀ g, g ∈ D.filter (fun x => x
 
 /-- which flows are (still) changed behind the view's back after an operation -/
 def dirtyStep (s : VS) (D : List Nat) : Op → List Nat
-  | .mutate f _ => f :: D
+  | .mutate f a =>
+    -- a change that leaves the flow's visibility and its key under the selected order as they were cannot mislead the view
+    if visible (setAttr s f a) f = visible s f ∧ gen (setAttr s f a) f = gen s f then D else f :: D
   | .add f _ => if f ∈ s.store then D else D.filter (fun x => x != f)
   | .update f _ => D.filter (fun x => x != f)
   | .setval f => if f ∈ s.store then D.filter (fun x => x != f) else D
@@ -179,10 +181,35 @@ def dirtyStep (s : VS) (D : List Nat) : Op → List Nat
 theorem good_setAttr {s : VS} {D : List Nat} (h : Good s D) (f : Nat) (a : Attr) :
     Core (setAttr s f a) (f :: D) ∧ FocusOK (setAttr s f a) := ⟨core_setAttr h.core f a, focusOK_same rfl rfl h.focus⟩
 
+/-- a change of `f` that keeps its visibility and its key under the selected order: the invariant holds as it did -/
+theorem core_setAttr_same {s : VS} {D : List Nat} (h : Core s D) (f : Nat) (a : Attr)
+    (hv : visible (setAttr s f a) f = visible s f) (hk : gen (setAttr s f a) f = gen s f) : Core (setAttr s f a) D := by
+  have hvis : ∀ g, visible (setAttr s f a) g = visible s g := by
+    intro g
+    by_cases hg : g = f
+    · subst hg; exact hv
+    · simp [visible, setAttr, hg]
+  have hgen : ∀ g, gen (setAttr s f a) g = gen s g := by
+    intro g
+    by_cases hg : g = f
+    · subst hg; exact hk
+    · simp [gen, setAttr, hg]
+  refine ⟨h.storeNodup, h.viewNodup, h.viewSub, h.sorted, ?_, ?_⟩
+  · intro g hg
+    obtain ⟨k, h1, h2⟩ := h.cached g hg
+    exact ⟨k, h1, fun hx => by rw [hgen]; exact h2 hx⟩
+  · intro g hg hx
+    rw [hvis]; exact h.vis g hg hx
+
 theorem opMutate_spec {s : VS} {D : List Nat} (h : Good s D) (hs : sigs s = []) (f : Nat) (a : Attr) :
-    Good (setAttr s f a) (f :: D) ∧ Shape s (setAttr s f a) :=
-  ⟨⟨core_setAttr h.core f a, focusOK_same rfl rfl h.focus, h.nocrash, h.settings⟩,
-    .quiet hs (fun _ => Iff.rfl) (fun _ hg => hg)⟩
+    Good (setAttr s f a)
+      (if visible (setAttr s f a) f = visible s f ∧ gen (setAttr s f a) f = gen s f then D else f :: D) ∧
+    Shape s (setAttr s f a) := by
+  refine ⟨?_, .quiet hs (fun _ => Iff.rfl) (fun _ hg => hg)⟩
+  split
+  · rename_i hc
+    exact ⟨core_setAttr_same h.core f a hc.1 hc.2, focusOK_same rfl rfl h.focus, h.nocrash, h.settings⟩
+  · exact ⟨core_setAttr h.core f a, focusOK_same rfl rfl h.focus, h.nocrash, h.settings⟩
 
 theorem opUpdate_spec {s : VS} {D : List Nat} (h : Good s D) (hs : sigs s = []) (f : Nat) (a : Attr) :
     Good (opUpdate s f a) (D.filter (fun x => x != f)) ∧ Shape s (opUpdate s f a) := by
